@@ -506,3 +506,10 @@ from contracts.C18 import extends_node_contract  # noqa: E402
 
 for _sfx in ("", "_async"):
     extends_node_contract("C02", _sfx, failing_callees=True)
+
+
+# ---- the limited output stream under the node layer: write() returns an int for every string (the
+# ---- render methods sum the return values: None would be a TypeError) and raises only its limit error
+from contracts.C07 import _limited_write  # noqa: E402
+
+_limited_write("C02")
